@@ -199,6 +199,28 @@ func checkBufferViews(what string, buf *commit.Buffer, ops []bop) error {
 	if len(none) != 0 {
 		return fmt.Errorf("%s: Range of unwritten block yields %d ops", what, len(none))
 	}
+	// The SAME reader, re-used after the per-block passes (as the pooled transaction readers are):
+	// a sequential pass, a rewound second pass, and one block again.
+	r.Seek(buf)
+	if err := sameOps(readAllOps(r, nil), wantOps(ops)); err != nil {
+		return fmt.Errorf("%s: Seek+Next with a reader that has ranged over blocks before: %v", what, err)
+	}
+	r.Rewind()
+	if err := sameOps(readAllOps(r, nil), wantOps(ops)); err != nil {
+		return fmt.Errorf("%s: Seek, Rewind, Next with a re-used reader: %v", what, err)
+	}
+	if bs := blocksOf(ops); len(bs) > 0 {
+		b := bs[len(bs)-1]
+		var twice []rop
+		r.Range(buf, commit.Chunk(b), func(r *commit.Reader) {
+			readAllOps(r, nil)
+			r.Rewind()
+			twice = readAllOps(r, twice)
+		})
+		if err := sameOps(twice, wantBlock(ops, b)); err != nil {
+			return fmt.Errorf("%s: Range(block %d), Rewind inside the callback, second pass: %v", what, b, err)
+		}
+	}
 	var chunks []uint32
 	buf.RangeChunks(func(c commit.Chunk) { chunks = append(chunks, uint32(c)) })
 	seen := map[uint32]bool{}
